@@ -112,11 +112,11 @@ func specialDigests(args []string) int {
 			}
 			tr := traceFor(*prop, *seed, k, *thorough)
 			applyGCVariant(tr, *gcvar)
-			_, e1 := RunTrace(tr, false)
-			_, e2 := RunTrace(tr, false)
+			v1, e1 := RunTrace(tr, false)
+			v2, e2 := RunTrace(tr, false)
 			n2++
 			st += e1.St.Steps
-			if e1.ObsDigest() != e2.ObsDigest() {
+			if obsWithViolation(e1, v1) != obsWithViolation(e2, v2) {
 				fmt.Fprintf(out, "M %d\n", k)
 			}
 		}
@@ -126,13 +126,13 @@ func specialDigests(args []string) int {
 	one := func(k int, tr *Trace) {
 		applyGCVariant(tr, *gcvar)
 		v, e := RunTrace(tr, false)
-		l := digestLine{K: k, Seed: tr.Seed, D: e.ObsDigest(), Struct: e.St.LegalStruct, Steps: e.St.Steps,
+		l := digestLine{K: k, Seed: tr.Seed, D: obsWithViolation(e, v), Struct: e.St.LegalStruct, Steps: e.St.Steps,
 			GCs: e.St.Faults["gc-boundary"] + e.St.Faults["gc-midop"], Shape: worldShape(e.S.W), Targets: len(e.M.Targets)}
 		if v != nil {
 			l.Class = v.Class
 		}
-		_, e2 := RunTrace(tr, false)
-		l.D2 = e2.ObsDigest()
+		v2, e2 := RunTrace(tr, false)
+		l.D2 = obsWithViolation(e2, v2)
 		b, _ := json.Marshal(l)
 		out.Write(b)
 		out.WriteByte('\n')
@@ -157,6 +157,21 @@ func specialDigests(args []string) int {
 		one(k, traceFor(*prop, *seed, k, *thorough))
 	}
 	return 0
+}
+
+// obsWithViolation: the observable digest of a run; if an oracle tripped, what it saw is part of the observation
+// (two executions that trip differently have observed different things).
+func obsWithViolation(e *Engine, v *Violation) uint64 {
+	d := NewDigest()
+	d.U64(e.ObsDigest())
+	if v != nil {
+		d.Str(v.Class)
+		d.U64(uint64(v.Step))
+		if v.Class != "oracle-panic" { // that message carries a stack trace with addresses
+			d.Str(v.Msg)
+		}
+	}
+	return d.Sum()
 }
 
 type procConfig struct {
@@ -406,9 +421,9 @@ func specialC13(args []string) int {
 func shrinkNondet(tr *Trace) *Trace {
 	differs := func(c *Trace) bool {
 		for rep := 0; rep < 6; rep++ {
-			_, e1 := RunTrace(c, false)
-			_, e2 := RunTrace(c, false)
-			if e1.ObsDigest() != e2.ObsDigest() {
+			v1, e1 := RunTrace(c, false)
+			v2, e2 := RunTrace(c, false)
+			if obsWithViolation(e1, v1) != obsWithViolation(e2, v2) {
 				return true
 			}
 		}
